@@ -144,8 +144,8 @@ defjvp(anp.angle, lambda g, ans, x: match_complex(ans, g * anp.conj(x * 1j) / an
 defjvp(
     anp.where,
     None,
-    lambda g, ans, c, x=None, y=None: anp.where(c, g, anp.zeros(anp.shape(g))),
-    lambda g, ans, c, x=None, y=None: anp.where(c, anp.zeros(g.shape), g),
+    lambda g, ans, c, x=None, y=None: broadcast(anp.where(c, g, anp.zeros(anp.shape(g))), ans),
+    lambda g, ans, c, x=None, y=None: broadcast(anp.where(c, anp.zeros(anp.shape(g)), g), ans),
 )
 
 # ----- Trickier grads -----
